@@ -36,8 +36,8 @@ function genInput (rng, url) {
 
 function genOriginalMap (rng, inputLines) {
   let nSources = rng.range(1, 3)
-  const sources = Array.from({ length: nSources }, (_, i) => rng.pick(['orig', 'src/orig', '../lib/orig', 'a b']) + i + '.ts')
-  const names = rng.bool(0.6) ? ['alpha', 'beta', 'gamma'].slice(0, rng.range(1, 3)) : []
+  const sources = Array.from({ length: nSources }, (_, i) => rng.pick(['orig', 'src/orig', '../lib/orig', 'a b', 'src/ñandú-é', 'src/𠮷野家-😀']) + i + '.ts')
+  const names = rng.bool(0.6) ? rng.shuffle(['alpha', 'beta', 'gamma', 'ñame', '𝒳name', '名前']).slice(0, rng.range(1, 4)) : []
   // bundlers that concatenate maps do not de-duplicate: the same string may sit in several slots, and tokens refer to slots
   if (rng.bool(0.3)) { sources.splice(rng.int(nSources), 0, rng.pick(sources)); nSources++ }
   if (names.length && rng.bool(0.3)) names.splice(rng.int(names.length), 0, rng.pick(names))
